@@ -176,6 +176,11 @@ func (rr *SIG) Verify(k *KEY, buf []byte) error {
 		}
 	case ECDSAP256SHA256, ECDSAP384SHA384:
 		pk := k.publicKeyECDSA()
+		// r and s are each exactly as long as the curve's field (RFC 6605
+		// section 4); the same numbers in any other length are not the signature.
+		if (k.Algorithm == ECDSAP256SHA256 && len(sig) != 64) || (k.Algorithm == ECDSAP384SHA384 && len(sig) != 96) {
+			return ErrSig
+		}
 		r := new(big.Int).SetBytes(sig[:len(sig)/2])
 		s := new(big.Int).SetBytes(sig[len(sig)/2:])
 		if pk != nil {
